@@ -193,7 +193,12 @@ def r1_canonical_discipline(chk, F):
                     pass  # a whole-value write by the normaliser itself (`*self = match .. { Some(c) => Self { .. }, .. }`): R3's business
                 else:
                     ok = bool(norm_blocks) and cfg.must_pass_through(fn, bi, norm_blocks)
-                    chk.ob(rule, short(fn), "aggregate-then-normalize", ok, "must-pass-through normalize",
+                    how = "must-pass-through normalize"
+                    if not ok and _returns_canonical_on_every_path(F, fn):
+                        # not the idiom, but decided semantically: the function is interpreted from canonical arguments and every
+                        # Duration in what it returns is canonical on every path (e.g. the fields are constants selected by a match)
+                        ok, how = True, "interpreted: every returned Duration canonical on every path"
+                    chk.ob(rule, short(fn), "aggregate-then-normalize", ok, how,
                            detail="%s: Duration built from non-constant fields at %s; every path to a return must call "
                                   "Duration::normalize" % (fn["key"], F.span(s.get("sp"))))
             # field writes into a Duration
@@ -215,6 +220,36 @@ def r1_canonical_discipline(chk, F):
     chk.floor(rule, "Duration constants", nconst, 15)
     chk.floor(rule, "Duration aggregates in MIR", nagg, 1)
     chk.floor(rule, "Duration field writes outside normalize", nwrite, 5)
+
+
+def _returns_canonical_on_every_path(F, fn):
+    """Semantic fallback of the construction discipline: interpret fn from canonical symbolic arguments; every path must return, no
+    Duration may be written through a `&mut` argument, and every Duration inside the returned value is provably canonical."""
+    if fn.get("kind") == "closure":
+        return False
+    for i in range(1, fn["arg_count"] + 1):
+        t = F.types[fn["locals"][i]["ty"]] if hasattr(F, "types") else None
+        if isinstance(t, dict) and t.get("k") == "ref" and t.get("mut"):
+            return False
+    eng, D = ctx(F)
+    try:
+        finals, args = D.run(fn)
+    except Exception:
+        return False
+    n = 0
+    for st in finals:
+        if st.end != "return":
+            if st.end in ("panic", "infeasible"):
+                continue
+            return False
+        ds = D.find_durations(st.ret, st)
+        if not ds:
+            return False
+        for d in ds:
+            if D.parts(d) is None or not D.is_canonical(st, d):
+                return False
+        n += 1
+    return n >= 1
 
 
 def _only_returns_const_after(fn, bi, norm_blocks):
